@@ -182,7 +182,9 @@ where
         let (r, cc) = m.shape();
         DM::from_entries(r, cc, m.iter().map(|(a, b, v)| (a, b, v.to_ref())))
     }).collect();
-    let canon = c.canon_cycles().iter().map(|z| {
+    // (a truncated complex keeps the canonical cycles of the full one; those outside the kept
+    // degrees have no summand to be expressed in)
+    let canon = c.canon_cycles().iter().filter(|z| degrees.contains(&(z.h_deg() as i32))).map(|z| {
         let hd = z.h_deg() as i32;
         let v = c[hd as isize].vectorize(z);
         (hd, DM::from_entries(v.dim(), 1, v.iter().map(|(i, r)| (i, 0, r.to_ref()))), z.is_zero())
@@ -252,10 +254,17 @@ where
     let (h, t) = (case["h"].as_i64().unwrap(), case["t"].as_i64().unwrap());
     let reduced = case["reduced"].as_bool().unwrap();
     let pd2 = pd.clone();
+    let trunc: Option<(i64, i64)> = case.get("trunc").and_then(|v| v.as_array()).map(|a| (a[0].as_i64().unwrap(), a[1].as_i64().unwrap()));
     let res = ex.exec(None, rt::fs::Disk::default(), move || {
         let l = link_of(&pd2);
         let c = KhComplex::<R>::new(&l, &R::param_h(h), &R::param_t(t), reduced);
-        snapshot(&c)
+        let full = snapshot(&c);
+        let part = trunc.and_then(|(a, b)| {
+            let (lo0, hi0) = (*full.degrees.first()? as isize, *full.degrees.last()? as isize);
+            let (lo, hi) = (lo0 + a as isize, hi0 - b as isize);
+            (lo <= hi).then(|| (lo as i32, hi as i32, snapshot(&c.truncated(lo..=hi))))
+        });
+        (full, part)
     });
     let st = ex.stats.last().cloned().unwrap_or_default();
     rep.nontrivial = st.par_calls > 0 && st.hash_draws > 0;
@@ -274,6 +283,42 @@ where
         }
         Ok(s) => s,
     };
+    let (s, part) = s;
+    // a truncated complex consists of exactly the requested degrees of the full one, with the same
+    // generators and the same differential between kept degrees
+    if let Some((lo, hi, p)) = &part {
+        rep.counters.insert("truncations_checked".into(), 1);
+        let keep: Vec<usize> = (0..s.degrees.len()).filter(|&k| (*lo..=*hi).contains(&s.degrees[k])).collect();
+        let want_deg: Vec<i32> = keep.iter().map(|&k| s.degrees[k]).collect();
+        let mut bad = None;
+        if p.degrees != want_deg {
+            bad = Some(format!("degrees {:?}, expected {:?}", p.degrees, want_deg));
+        } else {
+            for (pk, &k) in keep.iter().enumerate() {
+                if p.qdegs[pk] != s.qdegs[k] {
+                    bad = Some(format!("generators in degree {} differ", s.degrees[k]));
+                    break;
+                }
+                let last = pk + 1 == keep.len();
+                if !last && !(p.d[pk].rows == s.d[k].rows && p.d[pk].cols == s.d[k].cols && p.d[pk].sub(&s.d[k]).is_zero()) {
+                    bad = Some(format!("differential out of degree {} differs", s.degrees[k]));
+                    break;
+                }
+                if last && !p.d[pk].is_zero() {
+                    bad = Some(format!("differential out of the top degree {} is not zero", s.degrees[k]));
+                    break;
+                }
+            }
+        }
+        if let Some(b) = bad {
+            rep.violation = Some(Violation::new("truncated-complex-wrong", format!("truncated({lo}..={hi}) of a complex supported in {:?}: {b}", s.degrees)));
+            return rep;
+        }
+        if let Some(v) = check_complex(p, R::FORMAL, h, t) {
+            rep.violation = Some(Violation::new("truncated-complex-wrong", format!("truncated({lo}..={hi}): {}", v.message)));
+            return rep;
+        }
+    }
     let total: usize = s.qdegs.iter().map(|q| q.len()).sum();
     rep.outcome_class = format!("{} generators", total.min(200));
     rep.outcome_digest = rt::mix(total as u64, s.d.iter().map(|m| m.nnz() as u64).sum());
@@ -321,14 +366,20 @@ impl Check for C05 {
     fn runs(&self, tier: &str) -> u64 { if tier == "quick" { 15_000 } else { 1_000_000 } }
     fn gen_case(&self, rng: &mut Rng, _idx: u64, tier: &str) -> Value {
         let max_x = if tier == "quick" { 8 } else { 10 };
-        let (name, pd) = diag::draw(rng, max_x);
+        // one run in 100: a heavily kinked diagram with more than 32 crossings (structure and grading
+        // checks only; the specialisation oracle applies up to ref_max crossings)
+        let kinked = rng.chance(1, 100);
+        let (name, pd) = if kinked { let (n, p, _) = diag::draw_kinked(rng); (n, p) } else { diag::draw(rng, max_x) };
         let pd = diag::permute_crossings(rng, &pd);
-        let ring = *rng.pick(&["Z", "Q", "F2", "F3", "Z[H]", "Z[H]", "Z[T]", "Z[H,T]", "Z[H,T]", "Q[H]", "F2[H]"]);
-        let (h, t) = if ring.contains('[') { (0, 0) } else { crate::c01::draw_ht(rng) };
+        // (the library's cost on heavily kinked diagrams explodes for non-zero or formal parameters)
+        let ring = if kinked { *rng.pick(&["Z", "Q", "F2", "F3"]) } else { *rng.pick(&["Z", "Q", "F2", "F3", "Z[H]", "Z[H]", "Z[T]", "Z[H,T]", "Z[H,T]", "Q[H]", "F2[H]"]) };
+        let (h, t) = if ring.contains('[') || kinked { (0, 0) } else { crate::c01::draw_ht(rng) };
         let formal_t = ring.contains('T');
         let reduced = !formal_t && t == 0 && !pd.is_empty() && rng.chance(1, 3);
         let pts: Vec<Value> = (0..3).map(|_| { let (a, b) = crate::c01::draw_ht(rng); json!([a, b]) }).collect();
-        json!({ "name": name, "pd": pd_to_json(&pd), "ring": ring, "h": h, "t": t, "reduced": reduced, "points": pts, "ref_max": if tier == "quick" { crate::c01::REF_MAX_CROSSINGS } else { crate::c01::REF_MAX_CROSSINGS + 1 } })
+        let mut case = json!({ "name": name, "pd": pd_to_json(&pd), "ring": ring, "h": h, "t": t, "reduced": reduced, "points": pts, "ref_max": if tier == "quick" { crate::c01::REF_MAX_CROSSINGS } else { crate::c01::REF_MAX_CROSSINGS + 1 } });
+        if rng.chance(1, 5) { case["trunc"] = json!([rng.below(3), rng.below(3)]); }
+        case
     }
     fn run_case(&self, case: &Value, ex: &mut Executor) -> RunReport {
         match case["ring"].as_str().unwrap() {
